@@ -245,6 +245,16 @@ func init() {
 		return nil
 	}
 	vfNatives["vfLiveGoroutines"] = func(fr *frame, a []value) value { return fr.i.S.live() }
+	vfNatives["vfLiveMatching"] = func(fr *frame, a []value) value {
+		sub := a[0].(string)
+		n := 0
+		for _, g := range fr.i.S.gs {
+			if g.state != gDone && strings.Contains(g.entry, sub) {
+				n++
+			}
+		}
+		return n
+	}
 	vfNatives["vfBlockedGoroutines"] = func(fr *frame, a []value) value {
 		n := 0
 		for _, g := range fr.i.S.gs {
